@@ -351,6 +351,13 @@ class ComponentLevel2( ComponentLevel1 ):
             s._dsl.all_upblk_reads [ blk ] |= m._dsl.func_reads[u]
             s._dsl.all_upblk_writes[ blk ] |= m._dsl.func_writes[u]
 
+            # A signal written by a function that an update_ff block
+            # calls is a register too
+            if blk in m._dsl.update_ff:
+              for x in m._dsl.func_writes[u]:
+                if isinstance( x, Signal ) and x.is_top_level_signal():
+                  x._dsl.needs_double_buffer = True
+
             for v in m._dsl.func_calls[ u ]:
               if v in caller: # v calls someone else there is a cycle
                 raise InvalidFuncCallError( \
